@@ -239,6 +239,8 @@ class Bit:
 
     def __init__(self, nonnull=True):
         self.tables = {}
+        self.lin_lb = {}   # counter symbol -> assumed lower bound
+        self.cond_atoms = {}
         self._nonnull = nonnull
         self.max_visits = 80
 
@@ -380,8 +382,15 @@ class Bit:
                 return Lin(v.t, v.c, tty.a)
             raise Unsupported('cast of counter')
         if isinstance(v, Cond):
-            if op == 'zext':
-                raise Unsupported('zext of opaque comparison')
+            if op in ('zext', 'sext'):
+                # the outcome of an opaque comparison becomes a boolean atom (remembered in cond_atoms)
+                nm = 'C{%d}' % len(self.cond_atoms)
+                for k, c in self.cond_atoms.items():
+                    if c.key() == v.key():
+                        nm = k
+                self.cond_atoms[nm] = v
+                a = atom(nm)
+                return BV([a] + [ZERO if op == 'zext' else a] * (tty.a - 1))
             return v
         v = as_bv(v, fty.a)
         if op == 'trunc':
@@ -490,6 +499,24 @@ class Bit:
             r = {'eq': dv == 0, 'ne': dv != 0, 'ult': dv < 0, 'ule': dv <= 0, 'ugt': dv > 0, 'uge': dv >= 0,
                  'slt': dv < 0, 'sle': dv <= 0, 'sgt': dv > 0, 'sge': dv >= 0}[pred]
             return (r, None)
+        # assumed lower bounds on counter symbols
+        if isinstance(a, Lin) and not isinstance(b, Lin) and len(a.t) == 1:
+            (sname, co), = a.t.items()
+            cb = self.concrete(b)
+            if co == 1 and sname in self.lin_lb and cb is not None:
+                lo = self.lin_lb[sname] + a.c
+                if pred in ('ugt', 'sgt') and lo > cb:
+                    return (True, None)
+                if pred in ('uge', 'sge') and lo >= cb:
+                    return (True, None)
+                if pred in ('ult', 'slt') and lo >= cb:
+                    return (False, None)
+                if pred in ('ule', 'sle') and lo > cb:
+                    return (False, None)
+                if pred == 'eq' and lo > cb:
+                    return (False, None)
+                if pred == 'ne' and lo > cb:
+                    return (True, None)
         return (None, Cond(pred, a, b))
 
     def truth(self, c):
@@ -523,6 +550,15 @@ class Bit:
             if nk in seen:
                 return False
             seen.add(k)
+        # opaque comparisons re-evaluated with the bits known by now
+        for c in pc:
+            if isinstance(c, Cond) and isinstance(c.a, BV) and isinstance(c.b, BV):
+                try:
+                    dec, _ = self.cmp('icmp', c.pred if c.pred != 'eq' else 'eq', c.a, c.b, __import__('llir').I(c.a.w))
+                except Unsupported:
+                    dec = None
+                if dec is not None and dec != c.pos:
+                    return False
         # product of single-bit conditions must not vanish
         try:
             p = ONE
@@ -549,17 +585,17 @@ class Bit:
         env = {}
         if isinstance(c, BV):
             b = c.bits[0]
-            # single atom or its complement
-            if len(b) == 1 and len(next(iter(b))) == 1:
-                env[next(iter(next(iter(b))))] = ONE
-            elif len(b) == 2 and frozenset() in b:
-                m = [m for m in b if m]
-                if len(m) == 1 and len(m[0]) == 1:
-                    env[next(iter(m[0]))] = ZERO
-            elif len(b) == 1:
-                # product of atoms == 1 -> every atom is 1
-                for a in next(iter(b)):
-                    env[a] = ONE
+            atoms = set(a for m in b for a in m)
+            if len(atoms) <= 12 and len(b) <= 64:
+                for a in atoms:
+                    at = atom(a)
+                    try:
+                        if not band(b, at ^ ONE):
+                            env[a] = ONE       # cond implies a
+                        elif not band(b, at):
+                            env[a] = ZERO      # cond implies not a
+                    except Blowup:
+                        pass
         elif isinstance(c, Cond) and isinstance(c.a, BV) and isinstance(c.b, BV):
             cb = c.b.value()
             # x <u 2^k (pos)  or  !(x >=u 2^k)
@@ -572,6 +608,17 @@ class Bit:
                     for bit in c.a.bits[k:]:
                         if len(bit) == 1 and len(next(iter(bit))) == 1:
                             env[next(iter(next(iter(bit))))] = ZERO
+            ge = (c.pred == 'uge' and c.pos) or (c.pred == 'ult' and not c.pos)
+            gt = (c.pred == 'ugt' and c.pos) or (c.pred == 'ule' and not c.pos)
+            if cb is not None and (ge or gt):
+                bound = cb if ge else cb + 1
+                if bound > 0 and bound & (bound - 1) == 0:
+                    k = bound.bit_length() - 1
+                    # x >= 2^k with all bits above k known zero  <=>  bit k is 1
+                    if all(bb == ZERO for bb in c.a.bits[k + 1:]) and k < c.a.w:
+                        bk = c.a.bits[k]
+                        if len(bk) == 1 and len(next(iter(bk))) == 1:
+                            env[next(iter(next(iter(bk))))] = ONE
         if env:
             subst_state(st, env)
         return env
@@ -681,6 +728,43 @@ def subst_state(st, env):
     st.pc = [c.subst(env) if hasattr(c, 'subst') else c for c in st.pc]
 
 
+def cond_bit(c):
+    """ANF of an opaque comparison when it has a small one: x <u 2^k, x >=u 2^k (few unknown bits above k), x ==/!= const"""
+    if not (isinstance(c, Cond) and isinstance(c.a, BV) and isinstance(c.b, BV)):
+        return None
+    cb = c.b.value()
+    if cb is None:
+        return None
+    try:
+        if c.pred in ('ult', 'uge', 'ule', 'ugt'):
+            bound = cb if c.pred in ('ult', 'uge') else cb + 1
+            if bound <= 0 or bound & (bound - 1):
+                return None
+            k = bound.bit_length() - 1
+            hi = [b for b in c.a.bits[k:] if b != ZERO]
+            if len(hi) > 10:
+                return None
+            anyhi = ZERO
+            for b in hi:
+                anyhi = bor(anyhi, b)
+            lt = bnot(anyhi)           # x < 2^k
+            r = lt if c.pred in ('ult', 'ule') else anyhi
+            return r if c.pos else bnot(r)
+        if c.pred == 'eq':
+            diff = [x ^ (ONE if (cb >> i) & 1 else ZERO) for i, x in enumerate(c.a.bits)]
+            nz = [d for d in diff if d != ZERO]
+            if len(nz) > 10:
+                return None
+            acc = ZERO
+            for d in nz:
+                acc = bor(acc, d)
+            r = bnot(acc)
+            return r if c.pos else bnot(r)
+    except Blowup:
+        return None
+    return None
+
+
 def implies(pc, bit_eq_zero):
     """does the conjunction of the single-bit path conditions force the ANF `bit_eq_zero` to 0?
     exact: P * b == 0 where P is the product of the pc bits"""
@@ -688,4 +772,8 @@ def implies(pc, bit_eq_zero):
     for c in pc:
         if isinstance(c, BV):
             p = band(p, c.bits[0])
+        else:
+            cbit = cond_bit(c)
+            if cbit is not None:
+                p = band(p, cbit)
     return not band(p, bit_eq_zero)
